@@ -143,6 +143,14 @@ func init() {
 			if b, _ := a["with_dir"].(bool); b {
 				runDir = base
 			}
+			if b, _ := a["relative"].(bool); b {
+				// a command given RELATIVE to the working directory it is to run in (which is not the
+				// directory this process runs in) — seeded change c14-lookpath-before-rundir
+				os.MkdirAll(filepath.Join(base, "bin"), 0o755)
+				os.WriteFile(filepath.Join(base, "bin", "tool.sh"), []byte("#!/bin/sh\nexit 0\n"), 0o755)
+				argv = []string{"./bin/tool.sh"}
+				runDir = base
+			}
 		case "empty":
 			argv = []string{}
 		case "notfound":
@@ -232,7 +240,7 @@ func runC14(r *Runner, tier string, rng *Rng) {
 	starts = append(starts, sc{"empty", nil}, sc{"notexec", nil}, sc{"isdir", nil},
 		sc{"badrundir", map[string]any{"name": "missing"}}, sc{"badrundir", map[string]any{"name": "afile", "dir_is_file": true}},
 		sc{"startable", nil}, sc{"startable", map[string]any{"explicit_path": true}}, sc{"startable", map[string]any{"with_dir": true}},
-		sc{"startable", map[string]any{"explicit_path": true, "with_dir": true}})
+		sc{"startable", map[string]any{"explicit_path": true, "with_dir": true}}, sc{"startable", map[string]any{"relative": true}})
 	for _, st := range starts {
 		args := map[string]any{"class": st.class}
 		for k, v := range st.extra {
